@@ -88,14 +88,20 @@ pub enum PolicyKind {
     Pct,
     BoundedPreempt,
     RoundRobin,
+    /// at every scheduling point the running thread is stalled with probability 1/q for the next
+    /// S steps of the others (q, S drawn per run): frequent attempts, long stalls - what a defect
+    /// needs that lives in a window of a few instructions and requires others to do real work meanwhile
+    Stall,
 }
 
-pub const ALL_POLICIES: [PolicyKind; 5] = [
+pub const ALL_POLICIES: [PolicyKind; 7] = [
     PolicyKind::Random,
     PolicyKind::Sticky,
     PolicyKind::Pct,
     PolicyKind::BoundedPreempt,
     PolicyKind::RoundRobin,
+    PolicyKind::Stall,
+    PolicyKind::Stall,
 ];
 
 /// A panic fault: unwind at the `nth` (1-based) user-code seam reached by
@@ -139,6 +145,8 @@ struct PolicyState {
     quantum: u64,
     since_switch: u64,
     low_prio: u32,
+    stall_len: u64,
+    stalled_until: Vec<u64>,
 }
 
 impl PolicyState {
@@ -150,7 +158,8 @@ impl PolicyState {
             let j = rng.below(i + 1);
             prio.swap(i, j);
         }
-        let horizon = [40u64, 200, 1000, 4000][rng.below(4)];
+        // runs range from a few hundred steps (hook seams) to ~100,000 (basic-block seams)
+        let horizon = [40u64, 200, 1000, 4000, 16_000, 64_000][rng.below(6)];
         let n_cp = match kind {
             PolicyKind::Pct => rng.range(1, 3),
             PolicyKind::BoundedPreempt => rng.range(0, 3),
@@ -161,9 +170,12 @@ impl PolicyState {
         change_points.sort_unstable();
         let quantum = match kind {
             PolicyKind::RoundRobin => [1u64, 2, 3, 5, 8, 13, 40][rng.below(7)],
-            PolicyKind::Sticky => [2u64, 4, 8, 16, 64][rng.below(5)],
+            // long quanta = long stalls of everybody else, starting at a uniformly random point
+            PolicyKind::Sticky => [2u64, 4, 8, 16, 64, 256, 1024][rng.below(7)],
+            PolicyKind::Stall => [2u64, 3, 6, 16, 64][rng.below(5)],
             _ => 1,
         };
+        let stall_len = [8u64, 32, 128, 512, 2048, 8192][rng.below(6)];
         PolicyState {
             kind,
             rng,
@@ -172,6 +184,8 @@ impl PolicyState {
             quantum,
             since_switch: 0,
             low_prio: 999,
+            stall_len,
+            stalled_until: vec![0; n],
         }
     }
 
@@ -205,6 +219,22 @@ impl PolicyState {
                 }
                 None => *self.rng.pick(eligible),
             },
+            PolicyKind::Stall => {
+                if let Some(c) = cur_ok {
+                    // never stall the last thread that is awake: stalls must not cancel each other
+                    let other_awake = eligible.iter().any(|t| *t != c && self.stalled_until[*t] <= step);
+                    if other_awake && self.rng.chance(1, self.quantum as u32) {
+                        self.stalled_until[c] = step + self.stall_len;
+                    }
+                }
+                let awake: Vec<usize> = eligible.iter().copied().filter(|t| self.stalled_until[*t] <= step).collect();
+                match cur_ok {
+                    Some(c) if awake.contains(&c) => c,
+                    _ if !awake.is_empty() => *self.rng.pick(&awake),
+                    // everybody is stalled: wake the one whose stall ends first
+                    _ => *eligible.iter().min_by_key(|t| self.stalled_until[**t]).unwrap(),
+                }
+            }
             PolicyKind::RoundRobin => match cur_ok {
                 Some(c) if self.since_switch + 1 < self.quantum => c,
                 Some(c) => *eligible.iter().find(|t| **t > c).unwrap_or(&eligible[0]),
@@ -428,7 +458,13 @@ pub fn bb_point(site: u8, ra: u64) {
         _ => 1 + (r >> 3) % (2 * gap),
     };
     t.countdown = next as u32;
+    // everything `point` calls is instrumented: no nested basic-block points from in there
+    t.in_point = 1;
     point(site);
+    let t = bb_tls();
+    if !t.is_null() {
+        unsafe { (*t).in_point = 0 };
+    }
 }
 
 pub static BB_LOG_ALL: std::sync::atomic::AtomicBool = std::sync::atomic::AtomicBool::new(false);
